@@ -49,7 +49,13 @@ where
             })
         }
         "ratelimiter" => {
-            let l = tower_resilience_ratelimiter::RateLimiterLayer::builder().limit_for_period(10_000).refresh_period(Duration::from_secs(1)).timeout_duration(Duration::from_millis(10)).build();
+            use tower_resilience_ratelimiter::WindowType;
+            let wt = match variant % 3 {
+                0 => WindowType::Fixed,
+                1 => WindowType::SlidingLog,
+                _ => WindowType::SlidingCounter,
+            };
+            let l = tower_resilience_ratelimiter::RateLimiterLayer::builder().limit_for_period(10_000).refresh_period(Duration::from_secs(1)).timeout_duration(Duration::from_millis(10)).window_type(wt).build();
             boxed_svc(l.layer(inner), |e| match e {
                 tower_resilience_ratelimiter::RateLimiterServiceError::Inner(p) => Outcome::inner(&p),
                 _ => Outcome::layer("RateLimited"),
@@ -57,29 +63,50 @@ where
         }
         "circuitbreaker" => {
             let l = tower_resilience_circuitbreaker::CircuitBreakerLayer::builder().failure_rate_threshold(1.0).sliding_window_size(1000).build();
-            boxed_svc(l.layer(inner), |e| c04::map_err(&e))
+            if variant % 2 == 0 {
+                boxed_svc(l.layer(inner), |e| c04::map_err(&e))
+            } else {
+                // the variant with a fallback: never invoked while the breaker stays closed
+                let svc = l.layer(inner).with_fallback(|req: Req| -> futures::future::BoxFuture<'static, Result<Resp, PErr>> {
+                    Box::pin(async move { Ok(Resp { serial: 0, req_id: req.id, payload: req.payload, src: 98 }) })
+                });
+                boxed_svc(svc, |e| c04::map_err(&e))
+            }
         }
         "retry" => {
-            // errors of class 2 are refused by the predicate (variant 0) or only one attempt is allowed
-            let l = if variant % 2 == 0 {
-                tower_resilience_retry::RetryLayer::<Req, PErr>::builder().max_attempts(3).fixed_backoff(Duration::from_millis(1)).retry_on(|e: &PErr| e.class == 1).build()
-            } else {
-                tower_resilience_retry::RetryLayer::<Req, PErr>::builder().max_attempts(1).build()
+            // errors of class 2 are refused by the predicate, or only one attempt is allowed (fixed / per request)
+            let l = match variant % 3 {
+                0 => tower_resilience_retry::RetryLayer::<Req, PErr>::builder().max_attempts(3).fixed_backoff(Duration::from_millis(1)).retry_on(|e: &PErr| e.class == 1).build(),
+                1 => tower_resilience_retry::RetryLayer::<Req, PErr>::builder().max_attempts(1).build(),
+                _ => tower_resilience_retry::RetryLayer::<Req, PErr>::builder().max_attempts_fn(|_r: &Req| 1).build(),
             };
             boxed_svc(l.layer(inner), |e: PErr| Outcome::inner(&e))
         }
         "timelimiter" => {
-            let l = tower_resilience_timelimiter::TimeLimiterLayer::builder().timeout_duration(Duration::from_secs(30)).cancel_running_future(variant % 2 == 0).build();
-            boxed_svc(l.layer(inner), |e| match e {
+            let map = |e| match e {
                 tower_resilience_timelimiter::TimeLimiterError::Inner(p) => Outcome::inner(&p),
                 _ => Outcome::layer("Timeout"),
-            })
+            };
+            if variant % 3 == 2 {
+                let l = tower_resilience_timelimiter::TimeLimiterLayer::builder().timeout_fn(|_r: &Req| Duration::from_secs(30)).cancel_running_future(variant % 2 == 0).build();
+                boxed_svc(l.layer(inner), map)
+            } else {
+                let l = tower_resilience_timelimiter::TimeLimiterLayer::builder().timeout_duration(Duration::from_secs(30)).cancel_running_future(variant % 2 == 0).build();
+                boxed_svc(l.layer(inner), map)
+            }
         }
         "cache" => {
-            let l = tower_resilience_cache::CacheLayer::<Req, u64>::builder().max_size(4).key_extractor(|r: &Req| r.id).build();
-            boxed_svc(l.layer(inner), |e| match e {
-                tower_resilience_cache::CacheError::Inner(p) => Outcome::inner(&p),
-            })
+            if variant % 2 == 0 {
+                let l = tower_resilience_cache::CacheLayer::<Req, u64>::builder().max_size(4).key_extractor(|r: &Req| r.id).build();
+                boxed_svc(l.layer(inner), |e| match e {
+                    tower_resilience_cache::CacheError::Inner(p) => Outcome::inner(&p),
+                })
+            } else {
+                let l = tower_resilience_cache::SharedCacheLayer::<Req, u64, Resp>::builder().max_size(4).key_extractor(|r: &Req| r.id).build();
+                boxed_svc(l.layer(inner), |e| match e {
+                    tower_resilience_cache::CacheError::Inner(p) => Outcome::inner(&p),
+                })
+            }
         }
         "fallback" => {
             let l = tower_resilience_fallback::FallbackLayer::<Req, Resp, PErr>::builder().value(Resp { serial: 0, req_id: 0, payload: 0, src: 99 }).handle(|e: &PErr| e.class == 1).build();
@@ -266,6 +293,23 @@ pub struct TCfg {
     clients: u32,
     /// the base value was driven to readiness before the clones were taken
     base_polled: bool,
+    /// non-zero (sequential client only): the one service value lives through more than plain
+    /// ready/call/await cycles — see `life_of`
+    life: u64,
+}
+
+/// What the sequential client does around request `i`: (extra successful `poll_ready` calls before
+/// `call`, drop the call future after its first poll, drop the service value before awaiting the
+/// last call).
+fn life_of(cfg: &TCfg, i: usize) -> (u32, bool, bool) {
+    if cfg.life == 0 || cfg.clients != 0 {
+        return (0, false, false);
+    }
+    let h = crate::prng::mix(cfg.life, i as u64);
+    let extra = (h % 3) as u32;
+    let cancel = cfg.reqs[i].1 > 0 && (h >> 4) % 5 == 0;
+    let drop_svc = i + 1 == cfg.reqs.len() && (cfg.life >> 8) % 3 == 0 && !cancel;
+    (extra, cancel, drop_svc)
 }
 
 pub fn targets() -> Vec<String> {
@@ -280,7 +324,7 @@ pub fn gen_t(rng: &mut Prng, index: usize) -> TCfg {
     let n = rng.range(2, 8);
     let reqs = (0..n).map(|_| (rng.chance(0.6), *rng.pick(&[0u64, 0, 1000, 3000]), rng.next())).collect();
     let clients = *rng.pick(&[0u32, 0, 0, 1, 2, 3]);
-    TCfg { target, kind, variant: rng.next(), reqs, clients, base_polled: rng.chance(0.5) }
+    TCfg { target, kind, variant: rng.next(), reqs, clients, base_polled: rng.chance(0.5), life: if rng.chance(0.5) { rng.next() | 1 } else { 0 } }
 }
 
 pub fn scenario_t(sseed: u64, _tier: Tier) -> Report {
@@ -299,12 +343,63 @@ pub fn scenario_t(sseed: u64, _tier: Tier) -> Report {
         };
         if cfg.clients == 0 {
             // sequential client on one service value: ready -> call -> await, like ServiceExt::oneshot loops
+            let cfgl = cfg.clone();
             let a = sim.actor(0, move || {
                 boxed(async move {
+                    let mut svc = Some(svc);
                     for (i, (ok, lat, payload)) in reqs.iter().enumerate() {
                         let req = mk(i, *ok, *lat, *payload);
-                        w2.log(Ev::Arrive { req: req.id });
-                        do_call(&w2, &mut svc, req, false, &|e: &Outcome| e.clone()).await;
+                        let id = req.id;
+                        w2.log(Ev::Arrive { req: id });
+                        let (extra, cancel, drop_svc) = life_of(&cfgl, i);
+                        if extra == 0 && !cancel && !drop_svc {
+                            do_call(&w2, svc.as_mut().unwrap(), req, false, &|e: &Outcome| e.clone()).await;
+                            continue;
+                        }
+                        let s = svc.as_mut().unwrap();
+                        let mut failed = None;
+                        for _ in 0..=extra {
+                            if let Err(e) = std::future::poll_fn(|cx| s.poll_ready(cx)).await {
+                                failed = Some(e);
+                                break;
+                            }
+                        }
+                        if let Some(e) = failed {
+                            w2.log(Ev::OuterReady { req: id, ok: false });
+                            w2.log(Ev::Resolve { req: id, out: e });
+                            continue;
+                        }
+                        w2.log(Ev::OuterReady { req: id, ok: true });
+                        let mut fut = Box::pin(s.call(req));
+                        w2.log(Ev::Issued { req: id });
+                        if drop_svc {
+                            w2.note("service value dropped before the call is awaited");
+                            svc = None;
+                        }
+                        w2.log(Ev::FirstPoll { req: id });
+                        if cancel {
+                            let polled = std::future::poll_fn(|cx| std::task::Poll::Ready(std::future::Future::poll(fut.as_mut(), cx))).await;
+                            if let std::task::Poll::Ready(out) = polled {
+                                let o = match out {
+                                    Ok(r) => Outcome::ok(&r),
+                                    Err(e) => e,
+                                };
+                                w2.log(Ev::Resolve { req: id, out: o });
+                            } else {
+                                w2.note(format!("r{id} cancelled after its first poll"));
+                            }
+                            drop(fut);
+                            continue;
+                        }
+                        let out = fut.await;
+                        let o = match out {
+                            Ok(r) => Outcome::ok(&r),
+                            Err(e) => e,
+                        };
+                        w2.log(Ev::Resolve { req: id, out: o });
+                        if svc.is_none() {
+                            break;
+                        }
                     }
                     w2.note("driver-done");
                 })
@@ -379,6 +474,7 @@ pub fn scenario_t(sseed: u64, _tier: Tier) -> Report {
         s.add(r.0 as u64 * 7 + r.1);
     }
     s.add(cfg.clients as u64 * 2 + cfg.base_polled as u64);
+    s.add(cfg.life);
     rep.sig = s.0;
     rep.case = json!({"cfg": format!("{cfg:?}")});
     rep.log = log;
@@ -467,6 +563,13 @@ pub fn judge_t(cfg: &TCfg, log: &[Rec]) -> Report {
             continue;
         }
         let e = enters.get(&id).cloned().unwrap_or_default();
+        if life_of(cfg, i).1 && !resolved.contains_key(&id) {
+            // cancelled after its first poll: at most one inner call, nothing else to compare
+            if e.len() > 1 {
+                rep.violate(format!("C20:transparency:{t}:inner-calls"), format!("r{id} (cancelled after its first poll): wrapped service called {} times", e.len()));
+            }
+            continue;
+        }
         if e.len() != 1 {
             rep.violate(format!("C20:transparency:{t}:inner-calls"), format!("r{id}: wrapped service called {} times in a non-triggering configuration (inner {kind})", e.len()));
             continue;
